@@ -403,6 +403,49 @@ pub fn drive_families_with(ctx: &Ctx, tag: &'static str, cases: u32, eval: &(dyn
     });
 }
 
+/// Systematic companion of `family()`: for one accepted frame per base shape (K fills), the frame next to each of its
+/// 56 single-bit neighbours in the ME / MB field (parity / address kept right): a state keyed by the field *without*
+/// one of its bits (a status bit, a sign bit) gives the neighbour the frame's result.
+pub fn drive_bit_neighbours(ctx: &Ctx, tag: &'static str, fills: usize, eval: &(dyn Fn(&[u8]) -> String + Sync)) {
+    let shapes: Vec<Shape> = base_shapes().into_iter().filter(|s| s.df & 0x10 != 0).collect();
+    let fails: Mutex<Vec<(usize, Failure)>> = Mutex::new(vec![]);
+    let n = shapes.len() * fills;
+    (0..n).into_par_iter().for_each(|i| {
+        let f = base_frame(&shapes[i / fills], ctx.seed ^ (0x5eed + (i % fills) as u64));
+        if f.len() != 14 {
+            return;
+        }
+        let df = f[0] >> 3;
+        let addr = if matches!(df, 16 | 20 | 21) {
+            let p = vcore::bits::parity(&f[..11]);
+            p ^ ((f[11] as u32) << 16 | (f[12] as u32) << 8 | f[13] as u32)
+        } else {
+            0
+        };
+        for bit in 32..88usize {
+            let mut g = f.clone();
+            g[bit / 8] ^= 0x80 >> (bit % 8);
+            g = finish_frame(&g[..11], addr);
+            if let Err(e) = check_family(ctx, tag, &[f.clone(), g], eval) {
+                let mut v = fails.lock().unwrap();
+                if v.len() < 64 {
+                    v.push((i * 56 + bit, e));
+                }
+                break;
+            }
+        }
+    });
+    let mut v = fails.into_inner().unwrap();
+    v.sort_by_key(|x| x.0);
+    let mut seen = std::collections::BTreeSet::new();
+    for (_, e) in v {
+        if seen.insert(e.signature.clone()) {
+            ctx.judge(Err(e));
+        }
+    }
+    ctx.class_n("frame next to each single-bit neighbour of its ME / MB field (history independence)", (n * 56) as u64);
+}
+
 pub fn replay_family(ctx: &Ctx, tag: &str, v: &serde_json::Value, eval: &(dyn Fn(&[u8]) -> String + Sync)) {
     let fam: Vec<Vec<u8>> = v["frames"].as_array().map(|a| a.iter().filter_map(|x| x.as_str().and_then(|s| hex::decode(s).ok())).collect()).unwrap_or_default();
     ctx.judge(check_family(ctx, tag, &fam, eval));
